@@ -6,6 +6,7 @@ import (
 	"fmt"
 	"io"
 	"reflect"
+	"syscall"
 
 	"github.com/syndtr/goleveldb/leveldb/cache"
 	"github.com/syndtr/goleveldb/leveldb/comparer"
@@ -428,7 +429,7 @@ func casesSmall(l *apiList) {
 	l.add("comparer.Comparer.Name", "-", "", func(x *apiCtx) error { _ = cmp.Name(); return nil })
 
 	// filter
-	for _, n := range intLattice(10, 64, 1<<32-1, 1<<32, 1<<33+7) {
+	for _, n := range intLattice(10, 64, -1000, 1<<31, 1<<32-7, 1<<32, 1<<33+7, 1<<62) {
 		n := n
 		cls := intClass(n.n)
 		l.add("filter.NewBloomFilter", cls, "bitsPerKey="+n.name, func(x *apiCtx) error {
@@ -436,6 +437,20 @@ func casesSmall(l *apiList) {
 			_ = f.Name()
 			if f.NewGenerator() == nil {
 				panic("harness: nil generator")
+			}
+			if n.n < 0 {
+				// NewBloomFilter: 'A negative bitsPerKey reads as 0'
+				var a, b util.Buffer
+				for i, fl := range []filter.Filter{f, filter.NewBloomFilter(0)} {
+					g := fl.NewGenerator()
+					for j := 0; j < 70; j++ {
+						g.Add(apiKey(j))
+					}
+					g.Generate([]*util.Buffer{&a, &b}[i])
+				}
+				if !bytes.Equal(a.Bytes(), b.Bytes()) {
+					panic("harness: a negative bitsPerKey does not read as 0")
+				}
 			}
 			return nil
 		})
@@ -454,8 +469,12 @@ func casesSmall(l *apiList) {
 						panic("harness: the filter hides a key that was added")
 					}
 				}
-				// a second Generate: the generator was reset
-				g.Generate(&buf)
+				// a second Generate: the generator was reset (a fresh buffer: the first may hold 512 MiB)
+				var buf2 util.Buffer
+				g.Generate(&buf2)
+				if buf2.Len() != 9 {
+					panic("harness: Generate after Generate does not write the minimum filter")
+				}
 				return nil
 			})
 		}
@@ -491,6 +510,38 @@ func casesSmall(l *apiList) {
 				f := filter.NewBloomFilter(bits)
 				for _, k := range keyLattice() {
 					_ = f.Contains(fb.b, k.b)
+				}
+			}
+			return nil
+		})
+	}
+	// filters of 2^29 bytes and more (the uint32 bit count of the code before the repair wraps: 2^29+1 bytes divide by
+	// zero): anonymous mappings, not Go heap (the allocation meter measures the callee), zero pages except where set
+	for _, ln := range []int{1 << 29, 1<<29 + 1, 1<<29 + 2, 1<<30 + 3} {
+		ln := ln
+		l.add("filter.Filter.Contains", "filter bytes arbitrary", fmt.Sprintf("%d bytes (2^29%+d), k=1 and k=30", ln, ln-1<<29), func(x *apiCtx) error {
+			fb, err := syscall.Mmap(-1, 0, ln, syscall.PROT_READ|syscall.PROT_WRITE, syscall.MAP_ANON|syscall.MAP_PRIVATE)
+			if err != nil {
+				panic("harness: mmap: " + err.Error())
+			}
+			defer syscall.Munmap(fb)
+			f := filter.NewBloomFilter(10)
+			for _, k := range []byte{1, 30} {
+				fb[ln-1] = k
+				key := apiKey(int(k))
+				// the positions a 64-bit reader of the format probes
+				h := util.Hash(key, 0xbc9f1d34)
+				delta := h>>17 | h<<15
+				for j := byte(0); j < k; j++ {
+					p := uint64(h) % (uint64(ln-1) * 8)
+					fb[p/8] |= 1 << (p % 8)
+					h += delta
+				}
+				if !f.Contains(fb, key) {
+					panic("harness: Contains answers false although every probed bit is set")
+				}
+				for _, kk := range keyLattice() {
+					_ = f.Contains(fb, kk.b)
 				}
 			}
 			return nil
